@@ -9,6 +9,7 @@ package parser
 //@ define validPacket(p *Packet) bool = p != nil && 0 <= p.Type && p.Type <= 6 && (p.IsBinary ==> p.Type == 4)
 
 //@ func (PacketType).ToChar
+//@   pure
 //@   ensures result == (p + 48) % 256 [C11.tochar]
 
 //@ func (*PacketType).FromChar
@@ -17,10 +18,12 @@ package parser
 //@   ensures (48 <= b && b <= 54) ==> result == nil && *p == b - 48 [C11.fromchar.accept]
 
 //@ func NewPacket
+//@   pure
 //@   ensures packetType != 4 && isBinary ==> result0 == nil && result1 != nil [C11.newpacket.reject]
 //@   ensures !(packetType != 4 && isBinary) ==> result1 == nil && fresh(result0) && result0.IsBinary == isBinary && result0.Type == packetType && result0.Data == data [C11.newpacket.fields]
 
 //@ func (*Packet).EncodedLen
+//@   pure
 //@   ensures result == elen(p, supportsBinary) [C11.len]
 
 //@ func (byteWriter).WriteByte
@@ -30,7 +33,7 @@ package parser
 //@ func (*Packet).Encode
 //@   requires validPacket(p)
 //@   requires w != nil && outlen(w) >= 0
-//@   modifies outlen(w), outbyte(w)
+//@   modifies outlen(w), outbyte(w), b64base(), b64pending(), b64target()
 //@   ensures reliable(w) && (!p.IsBinary || supportsBinary) ==> result == nil [C11.encode.reliable]
 //@   ensures forall i int :: {outbyte(w, i)} 0 <= i && i < old(outlen(w)) ==> outbyte(w, i) == old(outbyte(w, i)) [C11.encode.prefix]
 //@   ensures result == nil && !p.IsBinary ==> outlen(w) == old(outlen(w)) + 1 + len(p.Data) [C11.encode.text.len]
@@ -44,6 +47,7 @@ package parser
 //@   ensures outlen(w) >= old(outlen(w)) [C11.encode.grows]
 
 //@ func decode
+//@   pure
 //@   requires true
 //@   ensures binaryFrame ==> result1 == nil && fresh(result0) && result0.IsBinary && result0.Type == 4 && result0.Data == data [C11.decode.binframe]
 //@   ensures !binaryFrame && len(data) == 0 ==> result1 != nil [C11.decode.empty]
@@ -76,6 +80,7 @@ package parser
 //@ define seps(j int, n int) int = j < n ? j : (n >= 1 ? n - 1 : 0)
 
 //@ func EncodedPayloadsLen
+//@   pure
 //@   requires forall k int :: 0 <= k && k < len(packets) ==> packets[k] != nil
 //@   ensures result == psum(packets, len(packets)) + seps(len(packets), len(packets)) [C11.payload.len]
 //@   loop 0 invariant l == psum(packets, rangeindex + 1) + seps(rangeindex + 1, len(packets)) [C11.payload.len.inv]
@@ -84,7 +89,7 @@ package parser
 //@ func EncodePayloads
 //@   requires w != nil && outlen(w) >= 0
 //@   requires forall k int :: 0 <= k && k < len(packets) ==> validPacket(packets[k])
-//@   modifies outlen(w), outbyte(w)
+//@   modifies outlen(w), outbyte(w), b64base(), b64pending(), b64target()
 //@   ensures reliable(w) ==> result == nil [C11.payload.reliable]
 //@   ensures result == nil && reliable(w) ==> outlen(w) == old(outlen(w)) + psum(packets, len(packets)) + seps(len(packets), len(packets)) [C11.payload.len.real]
 //@   ensures forall i int :: {outbyte(w, i)} 0 <= i && i < old(outlen(w)) ==> outbyte(w, i) == old(outbyte(w, i)) [C11.payload.prefix]
@@ -108,4 +113,5 @@ package parser
 //@   ensures result1 == nil && !binaryFrame && inbyte(r, old(inpos(r))) != 98 ==> forall i int :: 0 <= i && i < len - 1 ==> result0.Data[i] == inbyte(r, old(inpos(r)) + 1 + i) [C11.dwl.text.data]
 
 //@ func Decode
+//@   modifies inpos(r), maxalloc(), maxmake()
 //@   requires r != nil
